@@ -407,4 +407,8 @@ def run(ck):
     rule_stepoff(ck)
     rule_removal(ck)
     rule_remove_all(ck)
+    # an injected call un-patches every breakpoint and must patch them again on every exit, failing calls included
+    # (shared with C16): otherwise all later arrivals are missed while the breakpoints are still listed
+    from rules import C16
+    C16.rule_brkpts(ck)
     rule_continue(ck)
